@@ -170,6 +170,9 @@ func (n *node[T]) clean(prefix string) {
 		if len(child.segment.Value) < len(prefix) {
 			if strings.HasPrefix(prefix, child.segment.Value) {
 				child.clean(prefix[len(child.segment.Value):])
+				if child.size() == 0 && len(child.children) == 0 { // 清理之后既无处理项也无子节点，与 Remove 一样不保留空节点。
+					dels = append(dels, child.segment.Value)
+				}
 			}
 		}
 
